@@ -236,7 +236,7 @@ def invert(W, copy=True):
         inverted connectivity matrix
     '''
     if copy:
-        W = W.copy()
+        W = W.astype(float)  # a float copy, whatever the dtype of the argument
     E = np.where(W)
     W[E] = 1. / W[E]
     return W
